@@ -46,6 +46,11 @@ CHECKS = {
         text="Exploration, exhaustive over the stated finite grid: every ordered pair of numeric kinds x every operator x every pair of boundary values, in map-env, struct-env, untyped and literal-operand modes, then random full-range values; result must be Exact (kind and value, NaN-aware) and of the kind checker.Check predicts; integer division by zero must fail.",
         note="Trusted: reference arithmetic in harness/core/refeval.go (RefArith, RefNegate) built on reflect.Value.Convert and Go's own operators; grid membership is a harness choice.",
         ref="4/C14"),
+    "C18": dict(
+        technique="property-based testing (rapid) with metamorphic oracles: twelve identities between separately compiled programs (and the single expression `(lhs) == (rhs)`), related by the harness; a static-type identity for nested closures via checker.Check",
+        text="Exploration: generated arrays (environment arrays of every element type, literals, ranges, results of other builtins, slices, conditionals; empty/singleton/long) and generated predicates/mappers that themselves contain builtins (nesting to 3, thorough 5) instantiate all/any, none/any, one/count, count/filter, len-map, filter-as-mask, closure scoping (own element preserved across an inner builtin; innermost `#` ranges over the innermost collection, 2-3 levels, dynamically and in the checker's static type), in-range vs two-sided comparison (int/int64 operands), and slicing partitions (length, elementwise, strings); optimiser on and off, typed and untyped. No expected-value table and no reference evaluator.",
+        note="Trusted: Equiv; the identities themselves. For the four predicate identities both sides must fail together; elsewhere one-sided failures are skipped and counted. in-range is restricted to int/int64 operands because the promotion rule (C14) makes the identity false for narrower kinds even in principle; F09/F15 regions excluded.",
+        ref="4/C18"),
 }
 
 NOT_YET = {}
